@@ -82,9 +82,9 @@ type nServer struct {
 	arrivals []nArrival
 }
 
-func (s *nServer) serve() {
+func (s *nServer) serve(ln net.Listener) {
 	for {
-		c, err := s.ln.Accept()
+		c, err := ln.Accept()
 		if err != nil {
 			return
 		}
@@ -200,7 +200,7 @@ func executeNotify(sc Scenario) (out nOutcome) {
 	}
 	defer ln.Close()
 	srv := &nServer{ln: ln}
-	go srv.serve()
+	go srv.serve(ln)
 	port := ln.Addr().(*net.TCPAddr).Port
 
 	comm := tars.NewCommunicator()
@@ -469,4 +469,159 @@ func notifyImplLine(o *nOutcome) string {
 		return strings.Join(l, ",")
 	}
 	return fmt.Sprintf("sends=%s stale=%s pushed=%s", j(sends), j(stale), j(pushed))
+}
+
+// ---------------------------------------------------------------------------------------------
+// Stream `restart-scale`: many restart cycles on ONE proxy of the full client, configured with a
+// small objqueuemax (/tars/application/client<objqueuemax>), so that per-proxy counters that are
+// normally 100000 failed sends away from their limit reach it within the run. Each cycle: the
+// server goes down (listener closed, connections reset), calls are attempted while it is down (the
+// dial is refused: a failed send; their outcome is not judged, they only have to return), the server
+// comes back on the same port, and two calls issued then must succeed in less than half their
+// timeout — for ANY number of earlier closes.
+
+func (s *nServer) down() {
+	s.mu.Lock()
+	ln := s.ln
+	conns := append([]*nConn(nil), s.conns...)
+	s.mu.Unlock()
+	_ = ln.Close()
+	for _, c := range conns {
+		if atomic.CompareAndSwapInt32(&c.closed, 0, 1) {
+			abort(c.c)
+		}
+	}
+}
+
+func (s *nServer) up(addr string) error {
+	var err error
+	for i := 0; i < 300; i++ {
+		var ln net.Listener
+		if ln, err = net.Listen("tcp", addr); err == nil {
+			s.mu.Lock()
+			s.ln = ln
+			s.mu.Unlock()
+			go s.serve(ln)
+			return nil
+		}
+		time.Sleep(5 * time.Millisecond)
+	}
+	return err
+}
+
+type scaleOutcome struct {
+	sc        Scenario
+	cycles    int
+	downCalls int
+	downSlow  int    // calls during a down window that took longer than their own deadline + slack
+	firstBad  string // first judged call that failed or was slow
+	badCycle  int
+	badCount  int
+	conns     int
+	harness   string
+}
+
+func executeRestartScale(sc Scenario) (out scaleOutcome) {
+	out.sc = sc
+	ln, err := net.Listen("tcp", "127.0.0.1:0")
+	if err != nil {
+		out.harness = "listen: " + err.Error()
+		return
+	}
+	addr := ln.Addr().String()
+	srv := &nServer{ln: ln}
+	go srv.serve(ln)
+	defer func() { srv.down() }()
+	port := ln.Addr().(*net.TCPAddr).Port
+
+	comm := tars.NewCommunicator()
+	cfg := *comm.Client // the client configuration is shared by all communicators of the process: copy it
+	cfg.ObjQueueMax = int32(sc.QueueMax)
+	comm.Client = &cfg
+	p := &nProxy{}
+	obj := fmt.Sprintf("C11.Scale%d.Obj", atomic.AddInt32(&nObjSeq, 1))
+	comm.StringToProxy(fmt.Sprintf("%s@tcp -h 127.0.0.1 -p %d -t 3000", obj, port), p)
+	p.s.TarsSetTimeout(notifyCallTimeoutMs)
+	seq := 0
+	invoke := func(deadline time.Duration) (time.Duration, error) {
+		seq++
+		var rsp requestf.ResponsePacket
+		ctx := context.Background()
+		if deadline > 0 {
+			var cancel context.CancelFunc
+			ctx, cancel = context.WithTimeout(ctx, deadline)
+			defer cancel()
+		}
+		t0 := time.Now()
+		err := p.s.TarsInvoke(ctx, 0, fmt.Sprintf("c%d", seq), nil, nil, nil, &rsp)
+		return time.Since(t0), err
+	}
+	judge := func(cycle int, d time.Duration, err error) {
+		if err == nil && d < notifyBound {
+			return
+		}
+		out.badCount++
+		if out.firstBad == "" {
+			out.badCycle = cycle
+			if err != nil {
+				out.firstBad = fmt.Sprintf("call c%d after restart %d failed after %v: %v", seq, cycle, d.Round(time.Millisecond), err)
+			} else {
+				out.firstBad = fmt.Sprintf("call c%d after restart %d answered only after %v", seq, cycle, d.Round(time.Millisecond))
+			}
+		}
+	}
+	d, err := invoke(0)
+	judge(0, d, err)
+	for cycle := 1; cycle <= sc.Cycles; cycle++ {
+		srv.down()
+		time.Sleep(3 * time.Millisecond) // the reset reaches the client's receiver
+		for i := 0; i < sc.DownCalls; i++ {
+			const dl = 250 * time.Millisecond
+			d, _ := invoke(dl) // server down: not judged, must only come back
+			out.downCalls++
+			if d > dl+500*time.Millisecond {
+				out.downSlow++
+			}
+		}
+		if err := srv.up(addr); err != nil {
+			out.harness = "listen again: " + err.Error()
+			return
+		}
+		out.cycles = cycle
+		d, err := invoke(0)
+		judge(cycle, d, err)
+		d, err = invoke(0)
+		judge(cycle, d, err)
+		if out.badCount >= 6 { // broken for good: no need to wait for dozens of timeouts
+			break
+		}
+	}
+	srv.mu.Lock()
+	out.conns = len(srv.conns)
+	srv.mu.Unlock()
+	return
+}
+
+func (o *scaleOutcome) summary() string {
+	return fmt.Sprintf("objqueuemax=%d cycles=%d/%d calls-while-down=%d (slow %d) connections=%d judged-calls-failed=%d first=%q",
+		o.sc.QueueMax, o.cycles, o.sc.Cycles, o.downCalls, o.downSlow, o.conns, o.badCount, o.firstBad)
+}
+
+func oracleRestartScale(o *scaleOutcome) []finding {
+	var fs []finding
+	if o.harness != "" {
+		return fs
+	}
+	if o.badCount > 0 {
+		locus := "after-many-restarts"
+		if strings.Contains(o.firstBad, "queue is full") {
+			locus = "after-many-restarts.invoke-queue-full"
+		}
+		fs = append(fs, finding{"C11:call-failed:" + locus, fmt.Sprintf("objqueuemax=%d, %d restart cycles with %d calls attempted during each down window: %s — although the server is back on the same port and answers every request it receives (%d judged calls failed in all)",
+			o.sc.QueueMax, o.sc.Cycles, o.sc.DownCalls, o.firstBad, o.badCount)})
+	}
+	if o.downSlow > 0 {
+		fs = append(fs, finding{"C11:hang:call-while-server-down", fmt.Sprintf("%d calls issued while the server was down did not return by their own deadline", o.downSlow)})
+	}
+	return fs
 }
